@@ -452,8 +452,15 @@ def gen_cases(R):
             out.append(rand_kripke(rng, rng.randint(2, maxn)))
         return out
 
+    nemit = [0]
+
     def emit(builder, args, kds):
         for kd in kds:
+            nemit[0] += 1
+            if nemit[0] % 3 == 0:
+                # labels installed through replace_labelling_function with SHARED set objects (and an entry for a non-state):
+                # CTL* works on a clone that it labels, CTL / LTL do not - the three must still agree
+                kd = dict(kd, alias=1)
             yield (kd, builder(rng, *args))
 
     pls = pl_pool()
